@@ -213,7 +213,24 @@ func runCase(c *fw.Ctx, we *sut.WebEnv, hc *http.Client, backend string, idx int
 		}
 		pre = 1
 	}
-	if !cmd("MAIL FROM:<"+sender+">", 250) {
+	// A declared SIZE is advisory: whatever the client declares (nothing, the truth, too little,
+	// too much - all far below the configured maximum), the stored bytes are the transmitted ones.
+	mailLine := "MAIL FROM:<" + sender + ">"
+	switch r.Intn(6) {
+	case 0:
+		mailLine += fmt.Sprintf(" SIZE=%d", len(sent))
+		c.Count("size_param:exact", 1)
+	case 1:
+		mailLine += fmt.Sprintf(" SIZE=%d", len(sent)/2)
+		c.Count("size_param:understated", 1)
+	case 2:
+		mailLine += fmt.Sprintf(" BODY=8BITMIME SIZE=%d", len(sent)*2+100)
+		c.Count("size_param:overstated", 1)
+	case 3:
+		mailLine += " SIZE=1"
+		c.Count("size_param:understated", 1)
+	}
+	if !cmd(mailLine, 250) {
 		return
 	}
 	for _, b := range boxes {
